@@ -86,6 +86,11 @@ theorem val_guard_eq (it vs total : Nat) : val_guard (it : Int) (vs : Int) (tota
 /-- `clip_grad_norm_` is called once, on the flat list of the parameters of `self.model` and of all `self.models` -/
 theorem clip_form_eq : Gen.C16.clipForm = C16E.clipForm := by decide
 
+/-- every `zero_grad` call of the loop body (OOM recovery, step branch) leaves `.grad = None` (`set_to_none` is not False) -/
+theorem zero_forms_eq : Gen.C16.zeroGradForms = C16E.zeroGradForms := by decide
+
+theorem zero_forms_wf : C16E.wfZero Gen.C16.zeroGradForms = true := by decide
+
 /-! ### mixed precision -/
 
 /-- order and guards of `div_` / `unscale_` / `clip_grad_norm_` / `scaler.step` / `scaler.update` in the step branch -/
